@@ -1127,6 +1127,8 @@ class SObj:
         if name in m:
             fn = m[name]
             return lambda *a, **k: fn(self, *a, **k)
+        if "prop." + name in m:
+            return m["prop." + name](self)
         if name.startswith("sym_") or name.startswith("__"):
             raise AttributeError(name)
         raise Unsupported(f"unmodelled attribute {object.__getattribute__(self, '_o_cls')}.{name}")
